@@ -8,3 +8,7 @@ FULL_STACK = [
     "./p2p/host/pstoremanager", "./p2p/host/observedaddrs", "./p2p/security/insecure",
 ]
 FULL_DEPS = ["yamux", "multistream"]
+
+# QUIC stratum: the real QUIC transport and quic-go itself as tasks of the scheduler, over simnet's UDP model.
+QUIC_STACK = ["./p2p/transport/quic", "./p2p/transport/quicreuse"]
+QUIC_DEPS = ["quic"]
